@@ -61,6 +61,8 @@ Definition set_parents ps (x : node) := mkNode (kind x) (data x) (kids x) ps (ca
 Definition set_cached c (x : node) := mkNode (kind x) (data x) (kids x) (parents x) c (collected x) (ecache x) (mcache x).
 Definition set_collected b (x : node) := mkNode (kind x) (data x) (kids x) (parents x) (cached x) b (ecache x) (mcache x).
 Definition set_ecache e (x : node) := mkNode (kind x) (data x) (kids x) (parents x) (cached x) (collected x) e (mcache x).
+(* node.data = d : an assignment the library cannot see *)
+Definition set_data d (x : node) := mkNode (kind x) d (kids x) (parents x) (cached x) (collected x) (ecache x) (mcache x).
 Definition set_mcache m (x : node) := mkNode (kind x) (data x) (kids x) (parents x) (cached x) (collected x) (ecache x) m.
 (* Directory.invalidate_hash, first two lines *)
 Definition clearc (x : node) := mkNode (kind x) (data x) (kids x) (parents x) (cached x) (collected x) None None.
@@ -207,6 +209,24 @@ Fixpoint update_hash (fuel : nat) (force : bool) (n : nat) (s : heap) : res (hea
 Definition read_hash (n : nat) (s : heap) := update_hash (S (length s)) false n s.
 Definition force_hash (n : nat) (s : heap) := update_hash (S (length s)) true n s.
 
+(* A MUTANT of update_hash(force=True), not the code: invalidate_hash() is
+   called once, on the node the update is forced on (which still invalidates
+   that node and its ancestors), and the subtree is then recomputed by a helper
+   that stores compute_hash() at every node WITHOUT invalidating it: the
+   descendants keep their collected flag and, Directory nodes, their cached
+   entries / model object.  Only used by C14_force_lazy_refuted. *)
+Fixpoint recompute (fuel : nat) (n : nat) (s : heap) : res (heap * bytes) :=
+  match fuel with
+  | O => Err EFuel
+  | S f =>
+      x <- get s n ;;
+      s2 <- fold_res (fun k t => r <- recompute f k t ;; Ok (fst r)) (map snd (kids x)) s ;;
+      r <- compute (update_hash f false) n s2 ;;
+      Ok (upd n (set_cached (store old_truthy (snd r))) (fst r), snd r)
+  end.
+Definition force_lazy (n : nat) (s : heap) : res (heap * bytes) :=
+  s1 <- inval n s ;; recompute (S (length s1)) n s1.
+
 (* Directory.entries / to_model (the sort is part of NH / of the observer) *)
 Definition entries (n : nat) (s : heap) : res (heap * list entry) :=
   x <- get s n ;;
@@ -245,6 +265,22 @@ Fixpoint collect (fuel : nat) (n : nat) (s : heap) : res (heap * list nat) :=
       x <- get s n ;;
       r <- collect_node n s ;;
       fold_res (fun k acc => r' <- collect f k (fst acc) ;; Ok (fst r', snd acc ++ snd r'))
+               (map snd (kids x)) r
+  end.
+
+(* A MUTANT of collect, not the code: it returns at once when the node it is
+   called on is already marked collected (an "optimisation" that is wrong:
+   nodes below may have been un-collected by a partial reset_collect or by a
+   mutation reaching them through another parent).  Only used by the
+   refutation C14_collect_early_refuted. *)
+Fixpoint collect_early (fuel : nat) (n : nat) (s : heap) : res (heap * list nat) :=
+  match fuel with
+  | O => Err EFuel
+  | S f =>
+      x <- get s n ;;
+      if collected x then Ok (s, []) else
+      r <- collect_node n s ;;
+      fold_res (fun k acc => r' <- collect_early f k (fst acc) ;; Ok (fst r', snd acc ++ snd r'))
                (map snd (kids x)) r
   end.
 
@@ -433,7 +469,8 @@ Inductive op :=
 | OEntries (n : nat)
 | OToModel (n : nat)
 | OCollect (n : nat)
-| OReset (n : nat).
+| OReset (n : nat)
+| OWrite (n : nat) (d : bytes).     (* node.data = d, out of band: no invalidation *)
 
 Inductive out :=
 | OutUnit | OutHandle (n : nat) | OutBool (b : bool) | OutHash (h : bytes)
@@ -465,6 +502,7 @@ Definition step (s : heap) (o : op) : heap * out :=
   | OToModel n => of_res s (to_model NH old_truthy n s) OutEntries
   | OCollect n => of_res s (collect NH old_truthy (S (length s)) n s) OutNodes
   | OReset n => match reset_collect (S (length s)) n s with Ok s' => (s', OutUnit) | Err e => (s, OutErr e) end
+  | OWrite n d => match get s n with Ok _ => (upd n (set_data d) s, OutUnit) | Err e => (s, OutErr e) end
   end.
 
 (* run a history from a state, collecting the outputs *)
@@ -524,6 +562,7 @@ Definition guard (s : heap) (o : op) : Prop :=
   acyclic (fst (step NH by_id old_truthy s o)) /\
   match o with
   | OUpdate p l => NoDup (map fst l) /\ forall name c, In (name, c) l -> plain name /\ c < length s
+  | OWrite _ _ => False     (* a guarded history contains no out-of-band write: see C10_force_restores *)
   | _ => True
   end.
 Fixpoint guarded (s : heap) (h : list op) : Prop :=
@@ -532,6 +571,13 @@ Fixpoint guarded (s : heap) (h : list op) : Prop :=
   | o :: h' => guard s o /\ guarded (fst (step NH by_id old_truthy s o)) h'
   end.
 Definition final (s : heap) (h : list op) : heap := fst (run NH by_id old_truthy s h).
+(* no collect of history h, run from s, is issued at a node that has x below
+   it at that moment *)
+Fixpoint quiet (s : heap) (h : list op) (x : nat) : Prop :=
+  match h with
+  | [] => True
+  | o :: h' => (forall r, o = OCollect r -> ~ Reach s r x) /\ quiet (fst (step NH by_id old_truthy s o)) h' x
+  end.
 End Guards.
 
 (* ---- C14: what the collections of a history have reported (ghost state).
